@@ -886,7 +886,7 @@ func (fs *fileStore) iterate(outFields []core.Field, ms *memstore, okayToReuseBu
 				}
 			}
 
-			var more bool
+			more := true
 			if includesAtLeastOneColumn {
 				more, err = onRow(key, columns, raw)
 				if err != nil {
